@@ -161,7 +161,9 @@ LEVEL_TEXT = (
     "a call that neither returns nor raises within 250000 driving-force evaluations is a violation with its input as "
     "witness. The evidence carries the histogram of evaluations per call, so that it is visible that non-convergent "
     "inputs were actually met (they end with the library's own ValueError at 100000 iterations). The permeate-composition "
-    "and separation-factor helpers and the models additionally run under a per-public-call budget (2 resp. 12 flux calculations)."
+    "and separation-factor helpers and the models additionally run under a per-public-call budget (2 resp. 12 flux calculations); for a "
+    "share of the near-equilibrium states the permeate temperature at which the map stops contracting is located by bisection and the "
+    "library is run 0..1e-2 K below it (critical slowing down)."
 )
 LEVEL_NOTE = "Unbounded termination cannot be decided by a finite run; the bound B and the sampled domain are the claim. Trusted: sys.monitoring LINE events and the wrapper on the real helper."
 TECHNIQUE = "runtime monitoring: online evaluation and line budgets (wrapper + sys.monitoring) over a workload aimed at the cycling region"
